@@ -165,7 +165,9 @@ class GenericCallAdapter(Adapter):
                     flag="fix",
                     file=self.context.file._source,
                     node=old_node,
-                    arg_pos=insert_pos,
+                    # behind the last old positional argument (a position of
+                    # the old argument list)
+                    arg_pos=len(old_node.args),
                     arg_name=None,
                     new_code=self.context.file._value_to_code(value.value),
                     new_value=value.value,
